@@ -63,6 +63,7 @@ from .. import export_runner as R
 from .. import exportvals as V
 from .. import exportscope as S
 from .. import exportrefs as XR
+from .. import exportfail as XF
 from ..impl import mx, close_all, quiet, err_kind
 
 
@@ -789,6 +790,16 @@ def _declares(desc, path, name):
     return rec(path, set())
 
 
+def model_error_class(exp):
+    """`Formula:<class name>` (eval_model) -> the bare class name of what the formula raised; None when the model's
+    failure is not a formula's (wrong number of arguments ...) or is modelx's own (`modelx.core.errors.X`)"""
+    k = exp.get("err", "")
+    if not k.startswith("Formula:"):
+        return None
+    k = k[len("Formula:"):]
+    return k if k.isidentifier() else None
+
+
 def res_of(r):
     if "ok" in r and type(r["ok"]) is int:
         return "val %d" % r["ok"]
@@ -917,7 +928,16 @@ def trigger_key(case, q):
 
 def compare(case, rec, out, stats, samples):
     desc = case.desc
-    hist = lambda q: {"desc": desc, "queries": [public(q)] if q else []}     # noqa: E731
+    def hist(q, upto=False):
+        """the failing query alone - or, where what an element returns depends on the reads before it (the failure
+        family: the caches of the package), the shortest sequence of earlier queries followed by it that still
+        matters: all reads before it in the same place"""
+        if q is None:
+            return {"desc": desc, "queries": []}
+        if not (upto or desc.get("compare_errors")):
+            return {"desc": desc, "queries": [public(q)]}
+        k = next(i for i, x in enumerate(case.queries) if x is q)
+        return {"desc": desc, "queries": [public(x) for x in case.queries[:k] if x["sp"] == q["sp"]] + [public(q)]}
     if case.problem:
         key = trigger_key(case, None)
         out.fail("C15: " + case.problem[0] + (" [%s]" % key if key else ""), hist(None),
@@ -935,6 +955,28 @@ def compare(case, rec, out, stats, samples):
         if "err" in exp:
             stats["model_raises"] += 1
             stats["model_raises:" + exp["err"]] = stats.get("model_raises:" + exp["err"], 0) + 1
+            if not desc.get("compare_errors"):
+                continue
+            # the failure family: the same exception class on both sides (modelx wraps what the formula raised
+            # into a FormulaError whose message names the class)
+            cls = model_error_class(exp)
+            if cls is None:
+                stats["model_error_not_a_formula_failure"] = stats.get("model_error_not_a_formula_failure", 0) + 1
+                continue
+            stats["compared_errors"] = stats.get("compared_errors", 0) + 1
+            if q.get("_repeat"):
+                stats["compared_errors_repeat"] = stats.get("compared_errors_repeat", 0) + 1
+            if got.get("cls") == cls:
+                continue
+            key = trigger_key(case, q)
+            if "err" in got:
+                what = "C15: exported package raises %s where the model's formula raises %s" % (got.get("cls"), cls)
+            else:
+                what = "C15: exported package returns a value where the model's formula raises %s" % cls
+            if key:
+                what += " [" + key + "]"
+            out.fail(what, hist(q, upto=True), detail={"model": exp, "exported": got, "cells_source": _find_src(
+                desc, q.get("_path") or [st["attr"] for st in q["sp"] if "attr" in st], q["cells"])}, key=key)
             continue
         if isinstance(exp["ok"], dict) and "other" in exp["ok"]:
             stats["model_value_not_canonical"] += 1
@@ -1174,6 +1216,7 @@ def slice_desc(desc, q):
                 "cells": [c for c in sp.get("cells", []) if c["name"] in idents],
                 "spaces": [sp_out(pth + (c["name"],), c) for c in sp.get("spaces", []) if pth + (c["name"],) in keep]}
     return {"name": desc["name"], "profile": desc.get("profile"),
+            **({"compare_errors": True} if desc.get("compare_errors") else {}),
             "grefs": [r for r in desc.get("grefs", []) if r["name"] in idents],
             "spaces": [sp_out((sp["name"],), sp) for sp in desc["spaces"] if (sp["name"],) in keep],
             "sigs": {k: v for k, v in desc.get("sigs", {}).items() if k in idents}}
@@ -1191,14 +1234,21 @@ def shrink_failures(ctx, out, limit=5):
         if not h.get("queries"):
             continue
         try:
-            small = slice_desc(h["desc"], h["queries"][0])
+            # the failing query is the last one (the earlier ones are the reads before it, where they matter)
+            small = slice_desc(h["desc"], h["queries"][-1])
             if len(json.dumps(small)) >= len(json.dumps(h["desc"])):
                 continue
-            probe = core.Outcome()
-            run_batch(ctx, [Case(0, dict(small, name="R0"), "shrink")], probe, new_stats(), [], fixed=[h["queries"]])
-            if any(g["what"] == f["what"] for g in probe.failures):
-                f["history"] = {"desc": dict(small, name=h["desc"]["name"]), "queries": h["queries"]}
-                f["detail"] = dict(f["detail"] or {}, shrunk_from_bytes=len(json.dumps(h["desc"])))
+            kept = set(c["name"] for _p, sp in W.iter_spaces(small) for c in sp.get("cells", []))
+            qsets = [h["queries"][-1:], [x for x in h["queries"] if x["cells"] in kept], h["queries"]]
+            for qs in qsets:
+                if len(qs) > len(h["queries"]):
+                    continue
+                probe = core.Outcome()
+                run_batch(ctx, [Case(0, dict(small, name="R0"), "shrink")], probe, new_stats(), [], fixed=[qs])
+                if any(g["what"] == f["what"] for g in probe.failures):
+                    f["history"] = {"desc": dict(small, name=h["desc"]["name"]), "queries": qs}
+                    f["detail"] = dict(f["detail"] or {}, shrunk_from_bytes=len(json.dumps(h["desc"])))
+                    break
         except Exception:       # noqa: BLE001 - the unshrunk input is reported
             continue
 
@@ -1259,6 +1309,14 @@ def run(ctx, out):
             d = dict(d, name="R%d" % idx)
             tasks.append(("objrefs", (ctx, [Case(idx, d, "objrefs/" + label)], None, [qs])))
             idx += 1
+    # the failure family: formulas that raise, handlers, repeated reads (all kinds on every run)
+    fail_queries = 0
+    if not os.environ.get("VERIF_C15_NO_FAIL"):
+        for label, d, qs in XF.family(ctx.rng("fail")):
+            d = dict(d, name="F%d" % idx)
+            fail_queries += len(qs)
+            tasks.append(("failures", (ctx, [Case(idx, d, label)], None, [qs])))
+            idx += 1
     programs = set()
     skipped_trigger = 0
     done = 0
@@ -1317,6 +1375,10 @@ def run(ctx, out):
         "objref_family": {"values_compared": per_phase.get("objrefs", {}).get("compared", 0),
                           "model_raises_not_compared": per_phase.get("objrefs", {}).get("model_raises", 0),
                           "targets": len(XR.TARGETS), "modes": list(XR.MODES)},
+        "failure_family": {"kinds": XF.KIND_IDS, "queries": fail_queries,
+                           "values_compared": per_phase.get("failures", {}).get("compared", 0),
+                           "errors_compared": stats.get("compared_errors", 0),
+                           "errors_compared_on_a_repeated_read": stats.get("compared_errors_repeat", 0)},
         "worker_processes": min(n_jobs(), len(tasks)),
         "value_kinds": [k.id for k in V.KINDS],
         "input_distribution": {"profiles": profiles, "features": features, "counters": stats,
